@@ -10,6 +10,8 @@ import (
 	"fmt"
 	"reflect"
 	"runtime"
+	"sort"
+	"strings"
 	"sync"
 	"time"
 
@@ -18,6 +20,46 @@ import (
 	"verifharness/internal/fw"
 	"verifharness/internal/wk"
 )
+
+type c13Blocked struct {
+	workers, blocked int
+	where            string
+}
+
+// c13EnvBlocked counts the stress goroutines (those with a frame of this file's
+// worker closure) and how many of them are parked in sync.(*RWMutex) under env frames.
+func c13EnvBlocked() c13Blocked {
+	buf := make([]byte, 4<<20)
+	dump := string(buf[:runtime.Stack(buf, true)])
+	var r c13Blocked
+	sites := map[string]bool{}
+	for _, g := range strings.Split(dump, "\n\n") {
+		if !strings.Contains(g, "main.init.") || !strings.Contains(g, "c13.go") || !strings.Contains(g, "github.com/mattn/anko/env.") {
+			continue
+		}
+		r.workers++
+		if strings.Contains(g, "sync.(*RWMutex)") || strings.Contains(g, "sync.runtime_Semacquire") {
+			r.blocked++
+			for _, ln := range strings.Split(g, "\n") {
+				if strings.HasPrefix(ln, "github.com/mattn/anko/env.") {
+					fn := ln
+					if i := strings.LastIndex(fn, "("); i > 0 {
+						fn = fn[:i]
+					}
+					sites[strings.TrimPrefix(fn, "github.com/mattn/anko/")] = true
+					break
+				}
+			}
+		}
+	}
+	var names []string
+	for k := range sites {
+		names = append(names, k)
+	}
+	sort.Strings(names)
+	r.where = strings.Join(names, ",")
+	return r
+}
 
 func init() {
 	wk.Register(&wk.Engine{
@@ -157,7 +199,25 @@ func init() {
 				}(g)
 			}
 			close(start)
-			wg.Wait()
+			finished := make(chan struct{})
+			go func() { wg.Wait(); close(finished) }()
+			select {
+			case <-finished:
+			case <-time.After(45 * time.Second):
+				// the operations normally take well under a second: decide from goroutine states,
+				// not from the clock — every worker parked on the environment's mutex in two
+				// samples means none of them can ever make progress
+				s1 := c13EnvBlocked()
+				time.Sleep(500 * time.Millisecond)
+				s2 := c13EnvBlocked()
+				input := map[string]interface{}{"goroutines": ng, "ops": nops, "gomaxprocs": procs}
+				if s1.blocked > 0 && s1.blocked == s1.workers && s2.blocked == s2.workers && s1.where == s2.where {
+					c.Violation("deadlock-in-env:"+s1.where, fmt.Sprintf("all %d unfinished worker goroutines are parked on the environment's mutex in two samples (%s)", s1.workers, s1.where), input)
+				} else {
+					c.Inconclusive("race-stress-watchdog", fmt.Sprintf("workers=%d blocked=%d / workers=%d blocked=%d", s1.workers, s1.blocked, s2.workers, s2.blocked), input)
+				}
+				c.Bail()
+			}
 			total := 0
 			for k, v := range counts {
 				c.Count("race_ops:"+k, v)
